@@ -23,7 +23,7 @@ func (c01) Meta(tier string) engine.Meta {
 	}
 	return engine.Meta{
 		Level: "model_checking",
-		Rule:  "type-directed enumeration of all well-typed programs up to the depth bound over the object alphabet (object literals in every field permutation, as list elements, map values, branches and arguments of polymorphic calls, projected by member / subscript) × {raw, host map, host struct} environments whose object values are stored in both field orders, plus every program over a host object compiled against one field order and invoked with the other, plus every program of the untyped depth-1, homogeneity and variable-of-each-type corpora of C05 that the real checker accepts; each on 4 back ends. Oracle: the real inferred type, the dynamic type of the result and of every component (own reader over exported fields) agree; no nil component. non-trivial = the program contains an object, list or map",
+		Rule:  "type-directed enumeration of all well-typed programs up to the depth bound over the object alphabet (object literals in every field permutation, as list elements, map values, branches and arguments of polymorphic calls, projected by member / subscript) × {raw, host map, host struct} environments whose object values are stored in both field orders, plus every program over a host object compiled against one field order and invoked with the other, plus one Callable per back end invoked over histories (<= 4 invocations) of environments whose objects alternate field order, list / map / object literals of 41..600 components (across the VM stack growth), host containers whose elements would differ in type, plus every program of the untyped depth-1, homogeneity and variable-of-each-type corpora of C05 that the real checker accepts; each on 4 back ends. Oracle: the real inferred type, the dynamic type of the result and of every component (own reader over exported fields) agree; no nil component. non-trivial = the program contains an object, list or map",
 		Bound: "depth " + d + "; 2- and 3-field objects (all 2 / 6 permutations); containers of width <= 2",
 		Assumptions: []string{"reading values through exported Type / V fields; a worker crash while reading is attributed to the program"},
 	}
@@ -120,6 +120,7 @@ func (c01) Generate(tier string, yield func(*engine.Case) bool) {
 			ok = false
 		}
 	}
+	c01MoreCases(emit)
 	for _, rep := range []string{"raw", "struct", "map"} {
 		g, env := objGrammar(rep), objEnv(rep)
 		for _, ty := range []*gen.Ty{tyOAB, gen.Num, gen.Str, gen.Bool, tyLO, tyMSO, tyO3} {
@@ -195,6 +196,9 @@ func (c01) Generate(tier string, yield func(*engine.Case) bool) {
 }
 
 func (c01) Run(c *engine.Case) *engine.Result {
+	if len(c.Args) > 0 && c.Args[0] != "c05" {
+		return runC01More(c)
+	}
 	if len(c.Args) > 0 && c.Args[0] == "c05" {
 		var d c05Data
 		if err := json.Unmarshal(c.Data, &d); err != nil {
